@@ -8,7 +8,7 @@ import numpy as np
 import yaml
 
 from .. import corpus, synth
-from ..dynmon import C01, C02
+from ..dynmon import C01, C02, C07
 from ..harness import Subject, Policy
 from ..spec import spec_from_yaml_doc, parse_addr
 from ..verdict import Acc
@@ -210,7 +210,7 @@ def c17_doc(acc, text, feats, label, rng, steps):
                 break
         acc.count("vectors_compared_with_file", 60)
         sub = Acc("C17")
-        m1, m2 = C01(sub), C02(sub)
+        m1, m2, m3 = C01(sub), C02(sub), C07(sub)
         subj.reset()
         pol = Policy(subj, rng, rng.choice(["attacker", "adversarial",
                                             "mixed"]))
@@ -220,10 +220,18 @@ def c17_doc(acc, text, feats, label, rng, steps):
             T = subj.step(i, subj.seed_for(i, rng.random() < 0.8, rng))
             m1.on_trans(T)
             m2.on_trans(T)
+            m3.single(T)        # the stated probabilities decide the outcome
             if T.raised:
                 break
         acc.evaluations += sub.evaluations
         acc.count("behaviour_steps", steps)
+        # draws that did not come from the global generator cannot be
+        # scripted: their outcomes are pooled over the whole run and tested
+        # as frequencies at the end (C07.finalize_frequency)
+        pool = acc.extra.setdefault("c07_unscripted", {})
+        for key, (n, k) in (sub.extra.get("c07_unscripted") or {}).items():
+            n0, k0 = pool.get(key, (0, 0))
+            pool[key] = (n0 + n, k0 + k)
         n_deny = sub.counters.get("fwblock:host_denylist_only", 0)
         if n_deny:
             acc.count("behaviour_steps_decided_by_host_denylist", n_deny)
@@ -911,6 +919,9 @@ def run(prop, tier, seed, shard, nshards):
                     f"{e} " + traceback.format_exc(limit=4)[-400:])
                 continue
             acc.count("cases:" + ctype)
+        if not acc.extra.get("c07_unscripted"):
+            acc.extra.pop("c07_unscripted", None)
+        C07.finalize_frequency(acc)
         return acc.result()
     # C18
     cases = [("shipped", n) for n in corpus.SHIPPED]
